@@ -41,6 +41,10 @@ type Stmt struct {
 
 var scopeNames = []string{"a", "b", "c", "d"}
 
+// Scale enlarges generated scenarios (histories, programs, module graphs); the
+// thorough tier sets it to 2 for half of its runs.
+var Scale = 1
+
 type scopeGen struct {
 	names []string
 	r     *simrt.Rand
